@@ -796,7 +796,28 @@ class Program:
                     out.append(c)
         return out
 
-    def callee_closure(self, roots, crate="divan", stop=lambda name: False, include_closures=True):
+    def impls_for_gargs(self, crate, gargs):
+        """Local trait-impl method bodies `<T as Trait>::m` whose Self type T is named in one of the generic args."""
+        out = []
+        if not gargs:
+            return out
+        if not hasattr(self, "_impl_index"):
+            idx = {}
+            for b in self.all_bodies():
+                if b.path.startswith("<") and " as " in b.path and b.kind == "AssocFn":
+                    ty = b.path[1:b.path.index(" as ")]
+                    ty = ty.split("<")[0].lstrip("&").strip()
+                    if "::" in ty and not ty.startswith(("std::", "core::", "alloc::")):
+                        idx.setdefault((b.crate, ty), []).append(b)
+            self._impl_index = idx
+        for (ck, ty), bs in self._impl_index.items():
+            if ck != crate:
+                continue
+            if any(ty in g for g in gargs):
+                out.extend(bs)
+        return out
+
+    def callee_closure(self, roots, crate="divan", stop=lambda name: False, include_closures=True, follow_generic_impls=False):
         """Transitive set of callee names reachable from `roots` (Body list) through calls whose
         callee body is in this program (local fns) - returns (local bodies visited, external callee names,
         indirect call sites)."""
@@ -825,6 +846,8 @@ class Program:
                     indirect.append(c)
                 else:
                     ext.setdefault(nm, c)
+                    if follow_generic_impls:
+                        wl.extend(self.impls_for_gargs(b.crate, c.gargs))
         return list(seen.values()), ext, indirect
 
 
@@ -862,6 +885,53 @@ def direct_place(body, op, depth=12):
             continue
         return ("rvalue", rv, d[1], d[2])
     return None
+
+
+def origins(body, op, depth=14, _seen=None):
+    """All terminal origins of an operand's value over *every* definition (copy/move/cast/reborrow chains are followed,
+    multi-definition locals branch).  Returns a list of ("place", base_local, fields, def_bb) | ("call", Call) |
+    ("const", operand) | ("rvalue", rv, bb) | ("unknown",)."""
+    _seen = _seen if _seen is not None else set()
+    if op["k"] == "const":
+        return [("const", op)]
+    if op["k"] not in ("copy", "move"):
+        return [("unknown",)]
+    p = op["p"]
+    fs = place_fields(p)
+    l = p["l"]
+    if 1 <= l <= body.arg_count:
+        return [("place", l, fs, None)]
+    if fs:
+        # projection of a local: origins of the base, with the fields appended when the base is a place
+        out = []
+        for o in origins(body, {"k": "copy", "p": {"l": l, "proj": [], "ty": ""}}, depth - 1, _seen):
+            if o[0] == "place":
+                out.append(("place", o[1], tuple(o[2]) + fs, o[3]))
+            else:
+                out.append(o)
+        return out
+    if depth <= 0 or l in _seen:
+        return [("unknown",)]
+    _seen = _seen | {l}
+    out = []
+    defs = body.prov.defs.get(l, [])
+    if not defs:
+        return [("unknown",)]
+    for d in defs:
+        if d[0] == "C":
+            out.append(("call", body.call_at(d[1])))
+        elif d[0] == "S":
+            if d[3]["p"]["proj"]:
+                continue
+            rv = d[3]["rv"]
+            if rv["k"] in ("use", "cast"):
+                out += origins(body, rv["o"], depth - 1, _seen)
+            elif rv["k"] in ("ref", "rawptr"):
+                sub = origins(body, {"k": "copy", "p": rv["p"]}, depth - 1, _seen)
+                out += [(o[0], o[1], o[2], d[1]) if o[0] == "place" and o[3] is None else o for o in sub]
+            else:
+                out.append(("rvalue", rv, d[1]))
+    return out
 
 
 def const_int(op):
